@@ -17,7 +17,7 @@ with tempfile.TemporaryDirectory() as d:
     subprocess.run(['/venv/bin/python', '-m', 'pytest', '-q', '-p',
                     'no:cacheprovider', '--timeout=900',
                     '--continue-on-collection-errors', '--junitxml=' + xml,
-                    'test/unit'], cwd='/repo', env=env,
+                    'test/unit'], cwd=os.environ.get('BASELINE_REPO', '/repo'), env=env,
                    stdout=subprocess.DEVNULL, stderr=subprocess.DEVNULL)
     passed = set()
     for tc in ET.parse(xml).getroot().iter('testcase'):
